@@ -78,6 +78,59 @@ def summary_sweep(res):
     return 4096
 
 
+def xml_target_sweep(res, nits, minl):
+    """custom target displays of CM v4.0 XML documents (three per document beside the sample's own): L10 target_min_pq / target_max_pq of the
+    generated RPU against the certified tables, over minimum luminances k/10000 (quick: the values whose double
+    product k/10000*10000 falls below k - the natural victims of a truncating re-quantisation - and a random
+    sample; thorough: every k) and a spread of peaks"""
+    import os, re, json
+    from .. import cli
+    src = open(os.path.join(C.ASSETS, "tests", "cmv4_0_2_custom_displays.xml")).read()
+    m = re.search(r"<TargetDisplay>\s*<ID>255</ID>.*?</TargetDisplay>", src, flags=re.S)
+    if not m:
+        raise RuntimeError("custom target display not found in the sample XML")
+    r = C.rng(res.seed, "c19-xml")
+    suspects = [k for k in range(10001) if (k / 10000) * 10000.0 < k]
+    if res.tier == "quick":
+        ks = sorted(set(r.sample(suspects, 60) + [3, 6, 12, 24, 29, 58, 93, 5015, 7636] + [r.randrange(0, 10001) for _ in range(30)] + [0, 1, 50, 10000]))
+    else:
+        ks = list(range(10001))
+    w = cli.Work("c19x")
+    nchk = 0
+    nbad = 0
+    for i in range(0, len(ks), 3):
+        grp = ks[i : i + 3]
+        peaks = [r.choice([48, 100, 108, 350, 600, 1000, 2000, 4000, 10000, r.randrange(1, 10001)]) for _ in grp]
+        clones = ""
+        for j, (k, pk) in enumerate(zip(grp, peaks)):
+            c = re.sub(r"<ID>\d+</ID>", "<ID>%d</ID>" % (200 + j), m.group(0))
+            c = re.sub(r"<PeakBrightness>[^<]*</PeakBrightness>", "<PeakBrightness>%d</PeakBrightness>" % pk, c)
+            c = re.sub(r"<MinimumBrightness>[^<]*</MinimumBrightness>", "<MinimumBrightness>%s</MinimumBrightness>" % (("%.4f" % (k / 10000.0)) if k % 7 else ("%.4f" % (k / 10000.0)).rstrip("0").rstrip(".") or "0"), c)
+            clones += c
+        doc = src[: m.end()] + clones + src[m.end():]
+        xp = w.write("t.xml", doc.encode())
+        ec, txt = cli.run(["generate", "--xml", xp, "-o", w.path("o.bin")], w.dir)
+        if ec != "0":
+            res.violation("generate --xml fails on a document with custom target displays (minima %s)" % grp, {"fn": "xml-targets", "minima": grp, "peaks": peaks, "output": txt.split("Stack backtrace")[0][-300:]})
+            continue
+        ec, txt = cli.run(["info", "-i", w.path("o.bin"), "-f", "0"], w.dir)
+        try:
+            js = json.loads(txt[txt.index("{"):])
+            l10 = {b["Level10"]["target_display_index"]: b["Level10"] for b in js["vdr_dm_data"]["cmv40_metadata"]["ext_metadata_blocks"] if "Level10" in b}
+        except Exception:
+            res.violation("info -f 0 unreadable after generate --xml with custom targets", {"fn": "xml-targets", "minima": grp, "output": txt[-300:]})
+            continue
+        for j, (k, pk) in enumerate(zip(grp, peaks)):
+            b = l10.get(200 + j)
+            nchk += 1
+            if b is None or b["target_min_pq"] != minl[k] or b["target_max_pq"] != nits[pk]:
+                nbad += 1
+                if nbad <= 3:
+                    res.violation("L10 of a custom target display (peak %d nits, minimum %d/10000 nits): generated %s, ST 2084 gives max %d min %d" % (pk, k, None if b is None else (b["target_max_pq"], b["target_min_pq"]), nits[pk], minl[k]),
+                                  {"fn": "xml-targets", "peak": pk, "min_k": k, "generated": b, "reference": [nits[pk], minl[k]]})
+    return nchk
+
+
 def run(res):
     # the implementation's outputs over the whole finite domain become the tables Coq certifies
     rc, out = C.build_harness()
@@ -121,11 +174,12 @@ def run(res):
     if any(nits[i] > nits[i + 1] for i in range(10000)) or any(minl[i] > minl[i + 1] for i in range(10000)):
         res.violation("nits_to_pq table is not monotonic", {"fn": "nits_to_pq", "what": "monotonicity"})
     nsum = summary_sweep(res)
+    nxml = xml_target_sweep(res, nits, minl)
     res.coverage.update({
-        "summary_codes_checked": nsum,
+        "summary_codes_checked": nsum, "xml_target_values_checked": nxml,
         "evaluations": len(nits) + len(minl) + 2 * len(cn) + nsum,
         "distinct_nontrivial": len(set(nits)) + len(set(minl)) + len(cn),
-        "rule": "the implementation evaluated on the whole domain of the property: integer nits 0..10000, k/10000 nits for k=0..10000, all 4096 codes (code->nits as exact f64 value, and code->nits->code); every entry certified in Coq by Interval (24194 obligations inside 32 shard lemmas) and re-checked with a 60-digit decimal evaluation for the replay; `info --summary` on a list holding every 12-bit code as source min / max PQ (one mastering display pair per code, minimum and snapped peak compared with the reference); non-trivial = distinct table values",
+        "rule": "the implementation evaluated on the whole domain of the property: integer nits 0..10000, k/10000 nits for k=0..10000, all 4096 codes (code->nits as exact f64 value, and code->nits->code); every entry certified in Coq by Interval (24194 obligations inside 32 shard lemmas) and re-checked with a 60-digit decimal evaluation for the replay; `info --summary` on a list holding every 12-bit code as source min / max PQ (one mastering display pair per code, minimum and snapped peak compared with the reference); `generate --xml` on documents with custom target displays (L10 target min / max PQ against the certified tables over minimum luminances k/10000: the values whose double product falls below k and a sample in quick, every k in thorough); non-trivial = distinct table values",
         "exhaustive": True,
         "samples": [{"nits": 100, "code": nits[100]}, {"min_nits": "50/10000", "code": minl[50]}, {"code": 2081, "nits_f64": "%d/%d" % cn[2081], "roundtrip": rt[2081]}],
         "interval_entries": len(nits) + len(minl) + len(cn),
